@@ -32,7 +32,20 @@ use crate::data::Symbol;
 ///    the first letter must be uppercase.
 /// 3. If a field name contains one or more letters,
 ///    the first letter must be lowercase.
-pub fn get_nonterminals(file: &File) -> Result<Vec<validated::Nonterminal>, KikiErr> {
+pub fn get_nonterminals(file: &File) -> /*@[*/(r: /*@]*/Result<Vec<validated::Nonterminal>, KikiErr>/*@[*/)/*@]*/
+    //@[ C10 get_nonterminals: every struct / enum declaration passes all nonterminal checks against the two name sets of THIS file, or a real violation is reported
+    ensures match r {
+        Ok(v) => sel_terminals(file.items@).len() == 1 && ({
+            let nts = nt_name_set(file.items@);
+            let terms = term_name_set(sel_terminals(file.items@)[0].variants@);
+            &&& forall|i: int| 0 <= i < file.items@.len() ==> nonterminal_ok(nts, terms, #[trigger] file.items@[i])
+            &&& v@.len() == sel_nonterminals(file.items@).len()
+            &&& forall|j: int| 0 <= j < v@.len() ==> #[trigger] v@[j] == nt_of_item(sel_nonterminals(file.items@)[j])
+        }),
+        Err(e) => err_truthful(*file, e),
+    },
+    //@]
+{
     let unvalidated: Vec<UnvalidatedNonterminal> = /*@{ T13_select_nonterminals*//*@- file
         .items
         .iter()
@@ -40,12 +53,81 @@ pub fn get_nonterminals(file: &File) -> Result<Vec<validated::Nonterminal>, Kiki
         .collect() *//*@|*/__vx_select_nonterminals(file)/*@}*/;
 
     let defined_symbols = get_defined_symbols(file)?;
-    let nonterminals = unvalidated
+    //@[ proof
+    let ghost items = file.items@;
+    let ghost nts = nt_name_set(items);
+    let ghost terms = term_name_set(sel_terminals(items)[0].variants@);
+    let ghost sel = sel_nonterminals(items);
+    proof {
+        assert forall|j: int, e: KikiErr| 0 <= j < sel.len() && #[trigger] item_err(nts, terms, sel[j], e) implies err_truthful(*file, e) by {
+            lemma_sel_nonterminals_in(items, j);
+            let i = choose|i: int| 0 <= i < items.len() && item_is_nt(#[trigger] items[i]) && items[i] == sel[j];
+            lemma_item_err_truthful(*file, i, e);
+        }
+    }
+    //@]
+    let nonterminals = /*@{ T16_open*//*@- unvalidated
         .iter()
-        .map(|nonterminal| validate_nonterminal(*nonterminal, &defined_symbols))
-        .collect::<Result<Vec<_>, _>>()?;
+        .map( *//*@|*/__vx_try_map_collect(&unvalidated, /*@}*/|nonterminal/*@[*/: &UnvalidatedNonterminal/*@]*/| /*@[*/-> (o: Result<validated::Nonterminal, KikiErr>)
+            ensures match o {
+                Ok(v) => nonterminal_ok(ds_nts(defined_symbols), ds_terms(defined_symbols), un_view(*nonterminal)) && v == nt_of_item(un_view(*nonterminal)),
+                Err(e) => item_err(ds_nts(defined_symbols), ds_terms(defined_symbols), un_view(*nonterminal), e),
+            }
+        { /*@]*/validate_nonterminal(*nonterminal, &defined_symbols)/*@[*/ }/*@]*//*@{ T16_close*//*@- )
+        .collect::<Result<Vec<_>, _>>() *//*@|*/)/*@}*/?;
+    //@[ proof
+    proof {
+        assert forall|i: int| 0 <= i < items.len() implies nonterminal_ok(nts, terms, #[trigger] items[i]) by {
+            if item_is_nt(items[i]) {
+                lemma_sel_nonterminals_has(items, i);
+                let j = choose|j: int| 0 <= j < sel.len() && #[trigger] sel[j] == items[i];
+                assert(un_view(unvalidated@[j]) == sel[j]);
+            }
+        }
+        assert forall|j: int| 0 <= j < nonterminals@.len() implies #[trigger] nonterminals@[j] == nt_of_item(sel[j]) by {
+            assert(un_view(unvalidated@[j]) == sel[j]);
+        }
+    }
+    //@]
     Ok(nonterminals)
 }
+
+//@[ C10 lemma: an error that is true of one nonterminal declaration is true of the file
+proof fn lemma_item_err_truthful(f: File, i: int, e: KikiErr)
+    requires 0 <= i < f.items@.len(), sel_terminals(f.items@).len() == 1,
+        item_err(nt_name_set(f.items@), term_name_set(sel_terminals(f.items@)[0].variants@), f.items@[i], e),
+    ensures err_truthful(f, e),
+{
+    let items = f.items@;
+    let nts = nt_name_set(items);
+    let terms = term_name_set(sel_terminals(items)[0].variants@);
+    let it = items[i];
+    match it {
+        FileItem::Struct(s) => {
+            if fieldset_err(nts, terms, s.fieldset, e) { assert(item_has_fieldset(items[i], s.fieldset)); }
+            else { assert(item_is_nt(items[i]) && item_name(items[i]).position == s.name.position); }
+        }
+        FileItem::Enum(en) => {
+            if e == KikiErr::SymbolOrTerminalEnumNameFirstLetterNotUppercase(en.name.position) && !upper_ok(en.name.name@) {
+                assert(item_is_nt(items[i]) && item_name(items[i]).position == en.name.position);
+            } else {
+                assert(variants_err(nts, terms, en.variants@, e));
+                assert(items[i] is Enum);
+                match e {
+                    KikiErr::NonterminalEnumVariantNameClash(n, p, q) => {}
+                    KikiErr::NonterminalEnumVariantSymbolSequenceClash(sq, p, q) => {}
+                    KikiErr::SymbolOrTerminalEnumNameFirstLetterNotUppercase(p) => {}
+                    _ => {
+                        let k = choose|k: int| 0 <= k < en.variants@.len() && fieldset_err(nts, terms, (#[trigger] en.variants@[k]).fieldset, e);
+                        assert(item_has_fieldset(items[i], en.variants@[k].fieldset));
+                    }
+                }
+            }
+        }
+        _ => {}
+    }
+}
+//@]
 
 #[derive(Debug, Clone, Copy)]
 enum UnvalidatedNonterminal<'a> {
